@@ -20,7 +20,11 @@ func init() { reg("C16", "ts", c16ts) }
 var c16layouts = []string{time.RFC3339, time.RFC3339Nano, time.RFC1123Z, time.RFC822Z, time.Kitchen, time.StampMicro, "2006-01-02 15:04:05.000 -0700", "02/01/06 15h04", slog.DateTime,
 	"15:04:05.999999999Z07:00", time.ANSIC, "Mon Jan _2 2006", "2006-01-02T15:04:05.000000000Z07:00", "20060102-150405.000000-0700",
 	// layouts that print the zone ABBREVIATION: in UTC mode that is "UTC", whatever the instant's own zone is called
-	time.RFC1123, time.RFC850, time.RFC822, time.UnixDate, "2006-01-02 15:04:05.000 MST", "15:04 MST -0700"}
+	time.RFC1123, time.RFC850, time.RFC822, time.UnixDate, "2006-01-02 15:04:05.000 MST", "15:04 MST -0700",
+	// layouts that begin or end with white space (a column-aligned log, a layout read from a configuration file): the
+	// layout is used as given (layouts that hold quotation marks or control characters are not in the list: the formats
+	// print the timestamp text without an escaping pass, see DESIGN section 6)
+	"15:04:05.000 ", " 2006-01-02 15:04:05 -0700", "15:04:05\u00a0", "  2006-01-02T15:04:05Z07:00  "}
 
 var c16flagTable = map[slog.Flags]string{
 	slog.Ldate:                                   "2006-01-02",
@@ -244,6 +248,53 @@ func c16ts(c *Ctx) {
 			lg = nl
 			derived = "New(name, conflicting option, option)"
 			c.R.Add("cases_through_New_with_conflicting_options", 1)
+		}
+		// the logger is a WithSkip helper of an owner that has OTHER time settings of its own (or none): the helper's own
+		// settings are the ones under test - given to it after it was derived - and the owner's WithSkip is evaluated
+		// again before the helper is used (it keeps one child per count and leaves that child as it is)
+		if derived == "-" && r.P(12) {
+			owner := newRoot(gen.Pick(r, []string{"", "t16"}), f, w, slog.AlwaysLevel)
+			if r.P(70) {
+				owner.SetTimeFormat(gen.Pick(r, c16layouts))
+			}
+			if r.P(50) {
+				owner.SetUTCMode(r.Bool())
+			}
+			helper := owner.WithSkip(1)
+			helper.SetWriter(w).SetErrorWriter(w)
+			if layout != "" {
+				helper.SetTimeFormat(layout)
+			}
+			switch utc {
+			case 1:
+				helper.SetUTCMode(false)
+			case 2:
+				helper.SetUTCMode(true)
+			}
+			_ = owner.WithSkip(1)
+			_ = owner.WithSkip(2)
+			lg = helper
+			derived = "a WithSkip(1) helper of an owner with other time settings; owner.WithSkip(1) evaluated again"
+			c.R.Add("cases_through_a_WithSkip_helper", 1)
+		}
+		// ... or a child made by parent.New(options...) WITHOUT a name, the time options first
+		if derived == "-" && (layout != "" || utc != 0) && r.P(12) {
+			parent := newRoot(gen.Pick(r, []string{"", "t16"}), f, w, slog.AlwaysLevel)
+			var opts []any
+			if layout != "" {
+				opts = append(opts, slog.WithTimeFormat(layout))
+			}
+			if utc != 0 {
+				opts = append(opts, slog.WithUTCMode(utc == 2))
+			}
+			if len(opts) == 2 && r.Bool() {
+				opts[0], opts[1] = opts[1], opts[0]
+			}
+			child := parent.New(opts...)
+			child.SetWriter(w).SetErrorWriter(w)
+			lg = child
+			derived = "parent.New(time options) without a name"
+			c.R.Add("cases_through_an_anonymous_child_made_with_time_options", 1)
 		}
 		ts := c16instant(r, zones)
 		viaHandler := r.P(15)
